@@ -979,6 +979,11 @@ namespace bloch::runtime {
     void RuntimeEvaluator::buildClassTable(Program& program) {
         m_classTable.clear();
         m_genericTemplates.clear();
+        struct BuildingFlag {
+            bool& flag;
+            explicit BuildingFlag(bool& f) : flag(f) { flag = true; }
+            ~BuildingFlag() { flag = false; }
+        } building(m_buildingClassTable);
 
         bool hasExplicitObjectClass = false;
         for (const auto& clsNode : program.classes) {
@@ -1236,7 +1241,11 @@ namespace bloch::runtime {
         if (rc->staticStorage.size() < rc->staticFields.size())
             rc->staticStorage.resize(rc->staticFields.size());
         m_classTable[key] = rc;
-        initStaticFields(rc.get());
+        // A specialisation created while the class table is still being built (a generic base
+        // class) must not run static initialisers yet: classes declared later are empty shells
+        // at this point. execute() initialises every class once the table is complete.
+        if (!m_buildingClassTable)
+            initStaticFields(rc.get());
         return rc.get();
     }
 
